@@ -102,6 +102,7 @@ func (e *FuncEnc) declareEvent(name string, sorts []string) string {
 		ev = "(" + fn + " " + strings.Join(as, " ") + ")"
 	}
 	e.D.Axiom("nResp:"+fn, fmt.Sprintf("(forall ((t Trace) %s) (! (= (nResp (tr_cons t %s)) (+ (nResp t) %s)) :pattern ((tr_cons t %s))))", strings.Join(bs, " "), ev, inc, ev))
+	e.declareProjections(name, fn, bs, as, sorts, ev)
 	return fn
 }
 
@@ -388,8 +389,17 @@ func (e *FuncEnc) contractCall(in ssa.Instruction, f *ssa.Function, c *Contract,
 				e.havocHeap(e.cur, k)
 			}
 		}
-		if tr && !c.TraceSpecified {
-			e.cur.trace = e.newSym("tr", "Trace")
+		if evn := c.Options["event"]; evn != "" {
+			// the callee's effect on the trace is summarised as one event
+			var sorts, aargs []string
+			for i, a := range argVals {
+				av, as := e.abstractArg(args[i], a.Type(), pre)
+				sorts = append(sorts, as)
+				aargs = append(aargs, av)
+			}
+			fn := e.declareEvent(evn, sorts)
+			e.cur.trace = e.define("tr", "Trace", sx("tr_cons", pre.trace, sx(fn, aargs...)))
+			e.Assumed["call to "+f.Name()+" is summarised as one `"+evn+"` event (its own events are neutral for the response views; checked in its body)"] = true
 		} else if tr {
 			e.cur.trace = e.newSym("tr", "Trace")
 		}
@@ -602,4 +612,55 @@ func (e *FuncEnc) inlineCall(f *ssa.Function, bindings []ssa.Value, args []strin
 		}
 		e.encodeInstr(in)
 	}
+}
+
+const projPrelude = `(declare-sort Head 0)
+(declare-sort RBody 0)
+(declare-fun respHead (Trace) Head)
+(declare-fun respBody (Trace) RBody)
+(declare-fun head_add (Head Str Str) Head)
+(declare-fun head_set (Head Str Str) Head)
+(declare-fun head_addall (Head Str GSeq) Head)
+(declare-fun head_wh (Head Int) Head)
+(declare-fun body_json (RBody Iface) RBody)
+(declare-fun body_copy (RBody Iface) RBody)
+(declare-fun body_write (RBody) RBody)
+(declare-sort RCore 0)
+(declare-fun respCore (Trace) RCore)
+(declare-fun core_ct (RCore Str) RCore)
+(declare-fun core_wh (RCore Int) RCore)`
+
+func (e *FuncEnc) needProjections() {
+	e.D.needSeq()
+	e.D.add("proj-prelude", projPrelude)
+}
+
+// declareProjections: how an event changes the header view (respHead) and the
+// body view (respBody) of the response being written.
+func (e *FuncEnc) declareProjections(name, fn string, bs, as, sorts []string, ev string) {
+	e.needProjections()
+	name = strings.ReplaceAll(name, "emitted.", "")
+	head, body, core := "(respHead t)", "(respBody t)", "(respCore t)"
+	switch {
+	case name == "(net/http.Header).Set" && len(as) == 3:
+		core = fmt.Sprintf("(ite (= %s %s) (core_ct (respCore t) %s) (respCore t))", as[1], e.D.Lit("Content-Type"), as[2])
+	case name == "http.ResponseWriter.WriteHeader" && len(as) == 2:
+		core = fmt.Sprintf("(core_wh (respCore t) %s)", as[1])
+	}
+	switch {
+	case name == "(net/http.Header).Add" && len(as) == 3:
+		head = fmt.Sprintf("(head_add (respHead t) %s %s)", as[1], as[2])
+	case name == "(net/http.Header).Set" && len(as) == 3:
+		head = fmt.Sprintf("(head_set (respHead t) %s %s)", as[1], as[2])
+	case name == "http.ResponseWriter.WriteHeader" && len(as) == 2:
+		head = fmt.Sprintf("(head_wh (respHead t) %s)", as[1])
+	case name == "writeJSON" && len(as) >= 2 && sorts[1] == "Iface":
+		body = fmt.Sprintf("(body_json (respBody t) %s)", as[1])
+	case name == "io.Copy" && len(as) == 2 && sorts[1] == "Iface":
+		body = fmt.Sprintf("(body_copy (respBody t) %s)", as[1])
+	case name == "http.ResponseWriter.Write":
+		body = "(body_write (respBody t))"
+	}
+	q := strings.Join(bs, " ")
+	e.D.Axiom("proj:"+fn, fmt.Sprintf("(forall ((t Trace) %s) (! (and (= (respHead (tr_cons t %s)) %s) (= (respBody (tr_cons t %s)) %s) (= (respCore (tr_cons t %s)) %s)) :pattern ((tr_cons t %s))))", q, ev, head, ev, body, ev, core, ev))
 }
